@@ -199,9 +199,12 @@ CLAIMS = {
              "both modes never end in a non-library exception (the model has explicit crash outcomes at every "
              "partial primitive), is_valid always returns a bool, constructor success <-> is_valid, and every "
              "raised error class implies its defect predicate (unknown country / wrong length / structure / "
-             "mod-97) on the cleaned text. PARTIAL for validate_bban=True: totality of the national algorithms "
-             "on structure-conforming BBANs is not yet proved in Lean; that mode is covered by the correspondence "
-             "stream (outcome classes incl. foreign exceptions compared on malformed/Unicode inputs) only.",
+             "mod-97) on the cleaned text. With validate_bban=True (C05National): for every text and every bank "
+             "registry, IBAN(text, validate_bban=True) never ends in a non-library exception - generic theorem "
+             "under two hypotheses (every registered algorithm reads only fields whose published classes it can "
+             "digest: natSafeB, decidable; every German method returns a verdict on ten digits: DETotal), both "
+             "discharged for the regenerated tables (kernel evaluation; the 39 method theorems of C07). Error "
+             "soundness of InvalidBBANChecksum / InvalidAccountCode is C06/C07.",
         design="7 (C05)",
         technique="Lean 4 proof (decision-tree characterisation of the pipeline, error soundness by case "
                   "analysis) + regenerated tables + differential correspondence on a malformed/Unicode stream"),
